@@ -153,8 +153,25 @@ def run(prog, rep, tier):
     else:
         r2.fail(fv.name, "end-of-snapshot-order", "EndOfSnapshot is not sent strictly after the shard loop", fv.loc())
     snap = [b for b, t in sends if b not in eos]
-    if snap and all(any(fv.dominates(l, b) for l in locks) for b in snap):
-        r2.ok("subscribe: %d snapshot send site(s) all under the shard lock" % len(snap))
+    # the critical section ends where the guard is released: a drop of the MutexGuard local (scope end) or mem::drop(guard)
+    rel = []
+    for bi in sorted(fv.live):
+        t = fv.blocks[bi]["t"]
+        if t["t"] == "drop" and "MutexGuard" in fv.f["locals"][t["p"]["l"]]:
+            rel.append(bi)
+        if t["t"] == "call" and (t["f"].get("name") or "").endswith("mem::drop"):
+            for a in t["args"]:
+                pl = a.get("m") or a.get("c")
+                if pl and "MutexGuard" in fv.f["locals"][pl["l"]]:
+                    rel.append(bi)
+    if not rel:
+        r2.unanalysable("subscribe: no release of the shard guard found", fv.loc())
+    after_release = [b for b in snap if any(b in fv.reach_after(d, removed_blocks=locks) for d in rel)]
+    if snap and all(any(fv.dominates(l, b) for l in locks) for b in snap) and not after_release:
+        r2.ok("subscribe: %d snapshot send site(s) all inside the shard critical section (after lock, before the guard is released)" % len(snap))
+    elif after_release:
+        r2.fail(fv.name, "snapshot-sent-after-unlock", "snapshot events are queued after the shard guard was released: a session that updates a prefix of that shard in between has its live event "
+                "queued before the stale snapshot entry, so the last event the subscriber sees for that prefix is not the current state", fv.loc(after_release[0]))
     else:
         r2.fail(fv.name, "snapshot-outside-lock", "snapshot events are produced outside the shard critical section", fv.loc())
 
@@ -195,6 +212,8 @@ def run(prog, rep, tier):
             elif kind not in ann:
                 r3.ok("insert_route: no %s-policy announcement precedes Table::insert" % kind)
 
+    r7 = rep.rule("R18.7", "the snapshot iterators select the same entries the live stream reports: every stored path pre-policy, exactly the non-filtered ones post-policy")
+    check_snapshot_selection(prog, r7)
     r6 = rep.rule("R18.6", "both outcomes of the import policy are reported to post-policy Adj-RIB-In subscribers (announcement if accepted, withdrawal if rejected)")
     check_post_policy_events(prog, r6)
 
@@ -304,3 +323,78 @@ def check_post_policy_events(prog, r):
                        "a route %s is stored without any post-policy Adj-RIB-In event: a subscriber that saw the earlier version of this (peer, prefix, path id) keeps it "
                        "although the post-policy view no longer holds it" % what, fv.loc(ai[0]))
     r.floor("functions evaluating the import policy for a stored route", n, 2)
+
+
+_SELECT = re.compile(r".*Iterator::(filter|filter_map|take_while|skip_while|skip|take|step_by|map_while)$")
+
+
+def _entry_selectors(prog, key, depth=2, seen=None):
+    """Closures (and element-dropping adaptors) applied to an iterator over RibEntry in `key`, its closures and the rustybgp_table
+    functions they call (an `impl Iterator` helper such as Destination::unfiltered_iter)."""
+    from .c16 import _place_reads
+    seen = seen if seen is not None else set()
+    out = []
+    for kk in prog.with_closures(key):
+        if kk in seen:
+            continue
+        seen.add(kk)
+        fv = view(prog, kk)
+        rend = Renderer(fv, depth=6)
+        for bi, t in fv.calls():
+            nm = t["f"].get("name") or ""
+            ga = t["f"].get("ga", "")
+            if _SELECT.match(nm) and "RibEntry" in ga:
+                cl = [x[2] for a in t["args"][1:] for x in walk(rend.operand(a, 6)) if isinstance(x, tuple) and x and x[0] == "agg" and str(x[1]).startswith("closure")]
+                ck = [k2 for c in cl for k2 in prog.ix if k2.endswith(str(c)) or str(c).endswith(k2)]
+                out.append((nm.split("::")[-1], ck[0] if ck else None, fv, bi))
+            elif depth > 0 and nm.startswith("rustybgp_table::"):
+                for hk in prog.by_name.get(nm, []):
+                    out += _entry_selectors(prog, hk, depth - 1, seen)
+    return out
+
+
+def check_snapshot_selection(prog, r):
+    """subscribe(snapshot) replays Table::iter_reach (pre-policy) and Table::iter_reach_post (post-policy).  The live stream reports
+    every stored path pre-policy, and post-policy exactly those the import policy accepted (R18.6), whatever else is known about
+    the path (stale, next hop unreachable, ..).  The snapshot must select by the same predicate: a path the snapshot leaves out
+    but the live stream had announced is missing for every later subscriber."""
+    from .. import predicates
+    from .c15 import _entry_atom, _table_of
+    for meth, want_desc in (("iter_reach", "every entry"), ("iter_reach_post", "not is_filtered")):
+        k = prog.one(r"rustybgp_table::Table::%s$" % meth)
+        r.analysed(prog.name(k))
+        sels = _entry_selectors(prog, k)
+        fv0 = view(prog, k)
+        tabs, uni_all, bad_shape = [], {"is_filtered"}, None
+        rows_ = []
+        for kind, ck, fv, bi in sels:
+            if kind != "filter" or ck is None:
+                bad_shape = "an element-dropping adaptor `%s` is applied to the path list" % kind
+                break
+            rws, cfv = predicates.rows(prog, ck, _entry_atom)
+            if rws is None or any(us or res is None for f_, res, us in rws):
+                bad_shape = "a filter over the path list has conditions that are not flags of the entry"
+                break
+            rows_.append(rws)
+            uni_all |= {a for f_, res, us in rws for a in f_}
+        if bad_shape:
+            r.unanalysable("Table::%s: %s" % (meth, bad_shape), fv0.loc())
+            continue
+        uni = sorted(uni_all)
+        import itertools
+        bad = None
+        tabs = [_table_of(rws, uni) for rws in rows_]
+        for vals in itertools.product([False, True], repeat=len(uni)):
+            v = dict(zip(uni, vals))
+            got = all(t[vals] for t in tabs) if all(t[vals] is not None for t in tabs) else None
+            want = True if meth == "iter_reach" else not v["is_filtered"]
+            if got is None or got != want:
+                bad = (v, got)
+                break
+        if bad is None:
+            r.ok("Table::%s selects %s (%d filter(s) over the path list, atoms %s)" % (meth, want_desc, len(rows_), ",".join(uni)))
+        else:
+            v, got = bad
+            r.fail(prog.name(k), "snapshot-selection:" + meth, "a stored path with %s is %s the %s snapshot, but the live stream %s it: a subscriber that arrives later never learns of it (and two "
+                   "subscribers disagree depending on when they subscribed)" % (", ".join("%s=%s" % (a, v[a]) for a in uni), "left out of" if not got else "included in",
+                                                                                  "pre-policy" if meth == "iter_reach" else "post-policy", "announces" if not got else "does not announce"), fv0.loc())
